@@ -250,6 +250,7 @@ where
         funcs: vec![tag],
         clients: vec![Client { func: 0, kind: ClientKind::Eval }, Client { func: 0, kind: ClientKind::Stream }],
         events,
+        batches: vec![],
     };
     match cursor::execute(&cs, Judge { evals: true, streams: true, build: true }, cov, prog) {
         RunResult::Clean { digest } => dig.word(digest),
